@@ -38,8 +38,18 @@ class Orch:
                 issues.append({"aspect": "trace", "kind": kind, "method": c.get("method"),
                                "detail": "events %s not accepted by %s stages %s" % (json.dumps(obs.get("events")), side, json.dumps(s.get("stages")))})
             if (obs.get("results") or []) != (s.get("results") or []):
-                issues.append({"aspect": "results", "kind": kind, "method": c.get("method"),
+                issues.append({"aspect": "results-model" if side == "model" else "results-plan", "kind": kind,
+                               "method": c.get("method"),
                                "detail": "impl results %s, %s says %s" % (json.dumps(obs.get("results")), side, json.dumps(s.get("results")))})
+        # C11 proper: the map must hold exactly the rules that ran to completion in THIS call and returned
+        if noc != "panic":
+            rules = {r["name"]: r for r in (c.get("rules") or [])}
+            ended = [e[1] for e in (obs.get("events") or []) if e[0] == "E"]
+            want = sorted({n: rules[n]["val"] for n in ended if n in rules and rules[n]["flag"] and not rules[n]["fails"]}.items())
+            got = sorted((k, v) for k, v in (obs.get("results") or []))
+            if [list(x) for x in want] != [list(x) for x in got]:
+                issues.append({"aspect": "results", "kind": "impl-vs-spec", "method": c.get("method"),
+                               "detail": "result map %s but the rules that ran and returned are %s" % (json.dumps(got), json.dumps(want))})
         # model vs spec (guard against driver/model drift; impossible when the theorems hold)
         m, s = o.get("model") or {}, o.get("spec") or {}
         def mvs(aspect):
@@ -53,7 +63,7 @@ class Orch:
             if m.get("stages") != s.get("stages"):
                 mvs("trace")
             if m.get("results") != s.get("results"):
-                mvs("results")
+                mvs("results-plan")
         return issues
 
     @staticmethod
